@@ -46,6 +46,8 @@ import "github.com/gebn/bmc/pkg/ipmi"
 //@ func (*V2Sessionless).buildAndSendCommand$1
 //@ props C05 C09 C10 C11 C18
 //@ requires [conn.valid] !isnil(s) && !isnil(s.buffer) && !isnil(s.transport) && !isnil(c) && !isnil(s.decode) && !isnil(ctx) && bufValid(s.buffer)
+//@ requires [inv.conn] connValid(s)
+//@ ensures [inv.conn] connValid(s)
 //@ at Transport).Send assert [C09.null-session] s.v2SessionLayer.ID == old(s.v2SessionLayer.ID) && s.v2SessionLayer.Sequence == old(s.v2SessionLayer.Sequence)
 //@ ensures [C10.sent] sends() == old(sends())+1
 //@ ensures [C10.final] result == nil ==> !s.messageLayer.CompletionCode.IsTemporary() && s.messageLayer.CompletionCode != 0xc0 && s.messageLayer.CompletionCode != 0xc3
@@ -56,24 +58,33 @@ import "github.com/gebn/bmc/pkg/ipmi"
 //@ func (*V2Sessionless).buildAndSendPayload$1
 //@ props C05 C10
 //@ requires [conn.valid] !isnil(s) && !isnil(s.buffer) && !isnil(s.transport) && !isnil(s.decode) && !isnil(ctx) && bufValid(s.buffer)
+//@ requires [inv.conn] connValid(s)
+//@ ensures [inv.conn] connValid(s)
 //@ ensures [C10.sent] sends() == old(sends())+1
 
 // ---- v2sessionless.go / v2session.go: the functions that build the packet around the retry loop
 
 //@ func (*V2Sessionless).buildAndSendCommand
 //@ props C05 C09 C10 C06
-//@ requires [conn.valid] !isnil(s) && !isnil(s.buffer) && !isnil(s.transport) && !isnil(c) && !isnil(s.decode) && !isnil(ctx) && !isnil(s.backoff) && bufSmall(s.buffer)
+//@ requires [conn.valid] !isnil(s) && !isnil(s.buffer) && !isnil(s.transport) && !isnil(c) && !isnil(s.decode) && !isnil(ctx) && !isnil(s.backoff)
 //@ at SerializeLayers assert [C09.null-wrapper] s.v2SessionLayer.ID == 0 && s.v2SessionLayer.Sequence == 0 && !s.v2SessionLayer.Encrypted && !s.v2SessionLayer.Authenticated &&
 //@    s.v2SessionLayer.PayloadDescriptor == ipmi.PayloadDescriptorIPMI
 //@ at SerializeLayers assert [C06+C10.message] s.messageLayer.Operation == *c.Operation() && s.messageLayer.RemoteAddress == 0x20 && s.messageLayer.RemoteLUN == c.RemoteLUN() &&
 //@    s.messageLayer.LocalAddress == 0x81 && s.messageLayer.Sequence == 1 && s.messageLayer.CompletionCode == 0
 //@ at SerializeLayers assert [C06.rmcp] s.rmcpLayer.Version == 6 && s.rmcpLayer.Sequence == 0xff && s.rmcpLayer.Class == 7 && !s.rmcpLayer.Ack
+//@ ensures [inv.conn] connValid(s)
+
+//@ func (*V2Sessionless).SendCommand
+//@ props C05 C18
+//@ requires [conn.valid] !isnil(s) && !isnil(s.buffer) && !isnil(s.transport) && !isnil(c) && !isnil(s.decode) && !isnil(ctx) && !isnil(s.backoff)
+//@ ensures [inv.conn] connValid(s)
 
 //@ func (*V2Sessionless).buildAndSendPayload
 //@ props C05 C09 C10 C06
-//@ requires [conn.valid] !isnil(s) && !isnil(s.buffer) && !isnil(s.transport) && !isnil(p) && !isnil(s.decode) && !isnil(ctx) && !isnil(s.backoff) && bufSmall(s.buffer)
+//@ requires [conn.valid] !isnil(s) && !isnil(s.buffer) && !isnil(s.transport) && !isnil(p) && !isnil(s.decode) && !isnil(ctx) && !isnil(s.backoff)
 //@ at SerializeLayers assert [C09.null-wrapper] s.v2SessionLayer.ID == 0 && s.v2SessionLayer.Sequence == 0 && !s.v2SessionLayer.Encrypted && !s.v2SessionLayer.Authenticated &&
 //@    s.v2SessionLayer.PayloadDescriptor == *p.Descriptor()
+//@ ensures [inv.conn] connValid(s)
 //@ at SerializeLayers assert [C06.rmcp] s.rmcpLayer.Version == 6 && s.rmcpLayer.Sequence == 0xff && s.rmcpLayer.Class == 7 && !s.rmcpLayer.Ack
 
 //@ func (*V2Session).buildAndSend
@@ -182,30 +193,35 @@ func specRAKP4Input(st int, m1 *ipmi.RAKPMessage1, m2 *ipmi.RAKPMessage2) int {
 
 //@ func calculateSIK
 //@ props C01
+//@ assigns hashstate(h)
 //@ requires [hash.args] !isnil(h) && !isnil(rakpMessage1) && !isnil(rakpMessage2)
 //@ ensures [C01.sik-input] hIsDigest(result, old(specSIKInput(hState(h), rakpMessage1, rakpMessage2))) && len(result) == hSizeOf(h)
 //@ ensures [C01.sik-reset] hState(h) == hInit(h)
 
 //@ func calculateRAKPMessage2AuthCode
 //@ props C01 C02
+//@ assigns hashstate(h)
 //@ requires [hash.args] !isnil(h) && !isnil(rakpMessage1) && !isnil(rakpMessage2)
 //@ ensures [C02.rakp2-input] hIsDigest(result, old(specRAKP2Input(hState(h), rakpMessage1, rakpMessage2))) && len(result) == hSizeOf(h)
 //@ ensures [C02.rakp2-reset] hState(h) == hInit(h)
 
 //@ func calculateRAKPMessage3AuthCode
 //@ props C01
+//@ assigns hashstate(h)
 //@ requires [hash.args] !isnil(h) && !isnil(rakpMessage1) && !isnil(rakpMessage2)
 //@ ensures [C01.rakp3-input] hIsDigest(result, old(specRAKP3Input(hState(h), rakpMessage1, rakpMessage2))) && len(result) == hSizeOf(h)
 //@ ensures [C01.rakp3-reset] hState(h) == hInit(h)
 
 //@ func calculateRAKPMessage4ICV
 //@ props C01 C02
+//@ assigns hashstate(h)
 //@ requires [hash.args] !isnil(h) && !isnil(rakpMessage1) && !isnil(rakpMessage2)
 //@ ensures [C02.rakp4-input] hIsDigest(result, old(specRAKP4Input(hState(h), rakpMessage1, rakpMessage2))) && len(result) == hSizeOf(h)
 //@ ensures [C02.rakp4-reset] hState(h) == hInit(h)
 
 //@ func executeHash
 //@ props C01 C03
+//@ assigns hashstate(h)
 //@ option nilable:h
 //@ ensures [C01.exec-nil] isnil(h) ==> isnil(result)
 //@ ensures [C01.exec-digest] !isnil(h) ==> hIsDigest(result, old(hAbsorb(hState(h), b))) && len(result) == hSizeOf(h) && hState(h) == hInit(h)
@@ -220,6 +236,7 @@ func specKInput(st int, n uint8) int {
 
 //@ func additionalKeyMaterialGenerator.K
 //@ props C01
+//@ assigns hashstate(g.hash)
 //@ ensures [C01.k-nil] isnil(g.hash) ==> isnil(result)
 //@ ensures [C01.k-input] !isnil(g.hash) ==> hIsDigest(result, old(specKInput(hState(g.hash), uint8(n)))) && len(result) == hSizeOf(g.hash) && hState(g.hash) == hInit(g.hash)
 //@ invariant 0 [k.fill] 0 <= i && i <= 20 && len(constant) == 20 && forall(qk, 0, i, constant[qk] == uint8(n))
@@ -264,6 +281,135 @@ func specKInput(st int, n uint8) int {
 //@ assigns nothing
 //@ ensures [C12.auth-domain] (result1 == nil) == (a == ipmi.AuthenticationAlgorithmHMACSHA1 || a == ipmi.AuthenticationAlgorithmHMACMD5 || a == ipmi.AuthenticationAlgorithmHMACSHA256)
 //@ ensures [C12.auth-refuse] result1 != nil ==> isnil(result0)
+//@ ensures [frame.auth-new] result1 == nil ==> isnewobj(result0)
 //@ ensures [C01.auth-sha1] a == ipmi.AuthenticationAlgorithmHMACSHA1 ==> !isnil(result0) && holdsFunc(result0.hashGen, "crypto/sha1.New") && result0.icvLength == 12
 //@ ensures [C01.auth-md5] a == ipmi.AuthenticationAlgorithmHMACMD5 ==> !isnil(result0) && holdsFunc(result0.hashGen, "crypto/md5.New") && result0.icvLength == 0
 //@ ensures [C01.auth-sha256] a == ipmi.AuthenticationAlgorithmHMACSHA256 ==> !isnil(result0) && holdsFunc(result0.hashGen, "crypto/sha256.New") && result0.icvLength == 16
+
+// K1 (integrity key) is the whole digest HMAC_SIK(0x01 x 20) of the authentication algorithm's hash.
+//@ func algorithmHasher
+//@ props C01 C03 C12
+//@ assigns hashstate(g.(additionalKeyMaterialGenerator).hash)
+//@ option dyn:g=github.com/gebn/bmc.additionalKeyMaterialGenerator
+//@ requires [hasher.keygen] !isnil(g.(additionalKeyMaterialGenerator).hash) && hState(g.(additionalKeyMaterialGenerator).hash) == hInit(g.(additionalKeyMaterialGenerator).hash)
+//@ ensures [C12.integ-domain] (result1 == nil) == (i == ipmi.IntegrityAlgorithmNone || i == ipmi.IntegrityAlgorithmHMACSHA196 || i == ipmi.IntegrityAlgorithmHMACMD5128 || i == ipmi.IntegrityAlgorithmHMACSHA256128)
+//@ ensures [C12.integ-none] (i == ipmi.IntegrityAlgorithmNone || result1 != nil) == isnil(result0)
+//@ ensures [C01.integ-sha1] i == ipmi.IntegrityAlgorithmHMACSHA196 ==> hSizeOf(result0) == 12 && hState(result0) == hInit(result0) &&
+//@    hInit(result0) == hmacKeyedDigest("crypto/sha1.New", old(specKInput(hState(g.(additionalKeyMaterialGenerator).hash), 1)), hSizeOf(g.(additionalKeyMaterialGenerator).hash))
+//@ ensures [C01.integ-md5] i == ipmi.IntegrityAlgorithmHMACMD5128 ==> hSizeOf(result0) == 16 && hState(result0) == hInit(result0) &&
+//@    hInit(result0) == hmacKeyedDigest("crypto/md5.New", old(specKInput(hState(g.(additionalKeyMaterialGenerator).hash), 1)), hSizeOf(g.(additionalKeyMaterialGenerator).hash))
+//@ ensures [C01.integ-sha256] i == ipmi.IntegrityAlgorithmHMACSHA256128 ==> hSizeOf(result0) == 16 && hState(result0) == hInit(result0) &&
+//@    hInit(result0) == hmacKeyedDigest("crypto/sha256.New", old(specKInput(hState(g.(additionalKeyMaterialGenerator).hash), 1)), hSizeOf(g.(additionalKeyMaterialGenerator).hash))
+//@ ensures [C01.integ-keygen] hState(g.(additionalKeyMaterialGenerator).hash) == hInit(g.(additionalKeyMaterialGenerator).hash)
+
+// K2 (confidentiality key): AES-128 uses the first 16 bytes of HMAC_SIK(0x02 x 20) (13.32).
+//@ func algorithmCipher
+//@ props C01 C03 C12
+//@ assigns hashstate(g.(additionalKeyMaterialGenerator).hash)
+//@ option dyn:g=github.com/gebn/bmc.additionalKeyMaterialGenerator
+//@ requires [cipher.keygen] !isnil(g.(additionalKeyMaterialGenerator).hash) && hState(g.(additionalKeyMaterialGenerator).hash) == hInit(g.(additionalKeyMaterialGenerator).hash) && hSizeOf(g.(additionalKeyMaterialGenerator).hash) >= 16
+//@ ensures [C12.conf-domain] (result1 == nil && !isnil(result0)) == (a == ipmi.ConfidentialityAlgorithmAESCBC128)
+//@ ensures [C12.conf-refuse] a != ipmi.ConfidentialityAlgorithmAESCBC128 ==> isnil(result0) && (a != ipmi.ConfidentialityAlgorithmNone ==> result1 != nil)
+//@ ensures [C01.conf-aes] a == ipmi.ConfidentialityAlgorithmAESCBC128 ==> dyntype(result0, "*github.com/gebn/bmc/pkg/ipmi.AES128CBC") && ipmi.SpecAESReady(result0.(*ipmi.AES128CBC)) &&
+//@    forall(qk, 0, 16, ipmi.SpecAESKeyByte(result0.(*ipmi.AES128CBC), qk) == hDigestByte(old(specKInput(hState(g.(additionalKeyMaterialGenerator).hash), 2)), qk))
+//@ ensures [C01.conf-keygen] hState(g.(additionalKeyMaterialGenerator).hash) == hInit(g.(additionalKeyMaterialGenerator).hash)
+
+// connValid: the representation invariant of a connection that every send path relies on and keeps.
+func connValid(s *V2Sessionless) bool {
+	return s.buffer != nil && s.transport != nil && s.decode != nil && s.backoff != nil
+}
+
+// ---- v2sessionless.go: the three request/response steps of the RMCP+ handshake (13.17-13.24)
+//
+// Each returns a response only if its message tag echoes the request's and
+// its status code is OK; it does not change the request it is given.
+
+//@ func (*V2Sessionless).openSession
+//@ ensures [inv.conn] connValid(s)
+//@ props C02 C12
+//@ requires [conn.valid] !isnil(s) && !isnil(s.buffer) && !isnil(s.transport) && !isnil(s.decode) && !isnil(ctx) && !isnil(s.backoff) && !isnil(r)
+//@ ensures [C02.open-ok] result1 == nil ==> !isnil(result0) && result0.Tag == r.Tag && result0.Status == ipmi.StatusCodeOK
+//@ ensures [C02.open-err] result1 != nil ==> isnil(result0)
+//@ ensures [frame.open-new] result1 == nil ==> isnewobj(result0)
+//@ ensures [frame.open-req] unchanged(*r)
+
+//@ func (*V2Sessionless).rakpMessage1
+//@ ensures [inv.conn] connValid(s)
+//@ props C02
+//@ requires [conn.valid] !isnil(s) && !isnil(s.buffer) && !isnil(s.transport) && !isnil(s.decode) && !isnil(ctx) && !isnil(s.backoff) && !isnil(r)
+//@ ensures [C02.rakp1-ok] result1 == nil ==> !isnil(result0) && result0.Tag == r.Tag && result0.Status == ipmi.StatusCodeOK
+//@ ensures [C02.rakp1-err] result1 != nil ==> isnil(result0)
+//@ ensures [frame.rakp1-new] result1 == nil ==> isnewobj(result0)
+//@ ensures [frame.rakp1-req] unchanged(*r)
+
+//@ func (*V2Sessionless).rakpMessage3
+//@ ensures [inv.conn] connValid(s)
+//@ props C02
+//@ requires [conn.valid] !isnil(s) && !isnil(s.buffer) && !isnil(s.transport) && !isnil(s.decode) && !isnil(ctx) && !isnil(s.backoff) && !isnil(r)
+//@ ensures [C02.rakp3-ok] result1 == nil ==> !isnil(result0) && result0.Tag == r.Tag && result0.Status == ipmi.StatusCodeOK
+//@ ensures [C02.rakp3-err] result1 != nil ==> isnil(result0)
+//@ ensures [frame.rakp3-new] result1 == nil ==> isnewobj(result0)
+//@ ensures [frame.rakp3-req] unchanged(*r)
+
+// ---- v2session_new.go: RMCP+ session establishment (13.17-13.32)
+
+func specHMACInit(a ipmi.AuthenticationAlgorithm, key []byte) int {
+	switch a {
+	case ipmi.AuthenticationAlgorithmHMACSHA1:
+		return hmacKeyed("crypto/sha1.New", key)
+	case ipmi.AuthenticationAlgorithmHMACSHA256:
+		return hmacKeyed("crypto/sha256.New", key)
+	}
+	return hmacKeyed("crypto/md5.New", key)
+}
+
+//@ func (*V2SessionlessTransport).newV2Session
+//@ props C01 C02 C12
+//@ requires [new.args] !isnil(s) && !isnil(s.V2Sessionless) && connValid(s.V2Sessionless) && !isnil(ctx) && !isnil(opts)
+//@ at rakpMessage1 assert [C12.confirm] openSessionRsp.AuthenticationPayload.Algorithm == cipherSuite.AuthenticationAlgorithm && openSessionRsp.IntegrityPayload.Algorithm == cipherSuite.IntegrityAlgorithm &&
+//@    openSessionRsp.ConfidentialityPayload.Algorithm == cipherSuite.ConfidentialityAlgorithm
+//@ at rakpMessage1 assert [C01.rakp1-sent] arg[*ipmi.RAKPMessage1](2).ManagedSystemSessionID == openSessionRsp.ManagedSystemSessionID && arg[*ipmi.RAKPMessage1](2).MaxPrivilegeLevel == opts.MaxPrivilegeLevel &&
+//@    arg[*ipmi.RAKPMessage1](2).PrivilegeLevelLookup == opts.PrivilegeLevelLookup && arg[*ipmi.RAKPMessage1](2).Username == opts.Username
+//@ at rakpMessage3 assert [C02.rakp2-code] len(rakpMessage2.AuthCode) == hashLenBy(hashGenerator.hashGen) &&
+//@    hIsDigest(rakpMessage2.AuthCode, specRAKP2Input(specHMACInit(openSessionRsp.AuthenticationPayload.Algorithm, opts.Password), rakpMessage1, rakpMessage2))
+//@ at rakpMessage3 assert [C01.rakp3-code] arg[*ipmi.RAKPMessage3](2).Status == ipmi.StatusCodeOK && arg[*ipmi.RAKPMessage3](2).ManagedSystemSessionID == openSessionRsp.ManagedSystemSessionID &&
+//@    hIsDigest(arg[*ipmi.RAKPMessage3](2).AuthCode, specRAKP3Input(specHMACInit(openSessionRsp.AuthenticationPayload.Algorithm, opts.Password), rakpMessage1, rakpMessage2))
+//@ ensures [C12.usable] result1 == nil ==> !isnil(result0) && !isnil(result0.confidentialityLayer) && !isnil(result0.v2ConnectionShared) && !isnil(result0.decode)
+//@ ensures [C12.algos] result1 == nil ==> result0.AuthenticationAlgorithm == openSessionRsp.AuthenticationPayload.Algorithm && result0.IntegrityAlgorithm == openSessionRsp.IntegrityPayload.Algorithm &&
+//@    result0.ConfidentialityAlgorithm == openSessionRsp.ConfidentialityPayload.Algorithm
+//@ ensures [C01.ids] result1 == nil ==> result0.LocalID == openSessionRsp.RemoteConsoleSessionID && result0.RemoteID == openSessionRsp.ManagedSystemSessionID
+//@ ensures [C01.sik-kg] result1 == nil && len(opts.KG) > 0 ==> len(result0.SIK) == hashLenBy(hashGenerator.hashGen) &&
+//@    hIsDigest(result0.SIK, specSIKInput(specHMACInit(result0.AuthenticationAlgorithm, opts.KG), rakpMessage1, rakpMessage2))
+//@ ensures [C01.sik-password] result1 == nil && len(opts.KG) == 0 ==> len(result0.SIK) == hashLenBy(hashGenerator.hashGen) &&
+//@    hIsDigest(result0.SIK, specSIKInput(specHMACInit(result0.AuthenticationAlgorithm, opts.Password), rakpMessage1, rakpMessage2))
+//@ at authenticationAlgorithmParams).K assert [C02.rakp4-icv] len(rakpMessage4.ICV) == ite(hashGenerator.icvLength == 0, hashLenBy(hashGenerator.hashGen), hashGenerator.icvLength) &&
+//@    hIsDigest(rakpMessage4.ICV, specRAKP4Input(hmacKeyedBy(hashGenerator.hashGen, sik), rakpMessage1, rakpMessage2))
+//@ ensures [C01.k1-sha1] result1 == nil && result0.IntegrityAlgorithm == ipmi.IntegrityAlgorithmHMACSHA196 ==> hSizeOf(result0.integrityAlgorithm) == 12 &&
+//@    hInit(result0.integrityAlgorithm) == hmacKeyedDigest("crypto/sha1.New", specKInput(hmacKeyedBy(hashGenerator.hashGen, sik), 1), hashLenBy(hashGenerator.hashGen))
+//@ ensures [C01.k1-md5] result1 == nil && result0.IntegrityAlgorithm == ipmi.IntegrityAlgorithmHMACMD5128 ==> hSizeOf(result0.integrityAlgorithm) == 16 &&
+//@    hInit(result0.integrityAlgorithm) == hmacKeyedDigest("crypto/md5.New", specKInput(hmacKeyedBy(hashGenerator.hashGen, sik), 1), hashLenBy(hashGenerator.hashGen))
+//@ ensures [C01.k1-sha256] result1 == nil && result0.IntegrityAlgorithm == ipmi.IntegrityAlgorithmHMACSHA256128 ==> hSizeOf(result0.integrityAlgorithm) == 16 &&
+//@    hInit(result0.integrityAlgorithm) == hmacKeyedDigest("crypto/sha256.New", specKInput(hmacKeyedBy(hashGenerator.hashGen, sik), 1), hashLenBy(hashGenerator.hashGen))
+//@ ensures [C01.k2-aes] result1 == nil ==> dyntype(result0.confidentialityLayer, "*github.com/gebn/bmc/pkg/ipmi.AES128CBC") && ipmi.SpecAESReady(result0.confidentialityLayer.(*ipmi.AES128CBC)) &&
+//@    forall(qk, 0, 16, ipmi.SpecAESKeyByte(result0.confidentialityLayer.(*ipmi.AES128CBC), qk) == hDigestByte(specKInput(hmacKeyedBy(hashGenerator.hashGen, sik), 2), qk))
+//@ ensures [C01.hashgen] result1 == nil ==> (result0.AuthenticationAlgorithm == ipmi.AuthenticationAlgorithmHMACSHA1 ==> holdsFunc(hashGenerator.hashGen, "crypto/sha1.New")) &&
+//@    (result0.AuthenticationAlgorithm == ipmi.AuthenticationAlgorithmHMACMD5 ==> holdsFunc(hashGenerator.hashGen, "crypto/md5.New")) &&
+//@    (result0.AuthenticationAlgorithm == ipmi.AuthenticationAlgorithmHMACSHA256 ==> holdsFunc(hashGenerator.hashGen, "crypto/sha256.New"))
+//@ ensures [C01.sik-stored] result1 == nil ==> window(result0.SIK, sik, 0, len(sik))
+
+//@ func RetrieveSupportedCipherSuites
+//@ props C12
+//@ invariant 0 [inv.loop-a] connValid(s.V2Sessionless)
+//@ invariant 0 [inv.loop-b] s.V2Sessionless == old(s.V2Sessionless)
+//@ invariant 0 [inv.loop-c] !isnil(s.V2Sessionless)
+//@ requires [conn.valid] !isnil(s) && !isnil(s.V2Sessionless) && connValid(s.V2Sessionless) && !isnil(ctx)
+//@ ensures [inv.conn] connValid(s.V2Sessionless) && s.V2Sessionless == old(s.V2Sessionless)
+//@ ensures [C16.no-partial] result1 != nil ==> len(result0) == 0
+
+//@ func (*V2SessionlessTransport).determineCipherSuite
+//@ props C12
+//@ requires [conn.valid] !isnil(s) && !isnil(s.V2Sessionless) && connValid(s.V2Sessionless) && !isnil(ctx)
+//@ ensures [inv.conn] connValid(s.V2Sessionless) && s.V2Sessionless == old(s.V2Sessionless)
+//@ ensures [C12.nonnil] (result1 == nil) == !isnil(result0)
+//@ ensures [C12.single] len(desiredSuites) == 1 ==> result1 == nil && result0 == &desiredSuites[0]
+//@ ensures [C12.single-nodiscovery] len(desiredSuites) == 1 ==> sends() == old(sends())
